@@ -23,13 +23,13 @@ import (
 // ---------------------------------------------------------------- mounts
 
 const (
-	kRODir = iota // WithReadOnlyDirMount(dir, "/")
-	kDirFS        // WithFSMount(os.DirFS(dir), "/")
-	kMapFS        // WithFSMount(fstest.MapFS{...}, "/")
-	kDualFS       // WithFSMount(value implementing io/fs.FS AND experimental/sys.FS (writable underneath), "/")
-	kRWFile       // WithFSMount(fs.FS whose files are *os.File opened O_RDWR, "/")
-	kSubFS        // WithFSMount(fs.Sub(os.DirFS(sandbox), "mnt"), "/")
-	kRichFS       // WithFSMount(struct embedding os.DirFS + ReadDirFS/StatFS/ReadFileFS, "/")
+	kRODir  = iota // WithReadOnlyDirMount(dir, "/")
+	kDirFS         // WithFSMount(os.DirFS(dir), "/")
+	kMapFS         // WithFSMount(fstest.MapFS{...}, "/")
+	kDualFS        // WithFSMount(value implementing io/fs.FS AND experimental/sys.FS (writable underneath), "/")
+	kRWFile        // WithFSMount(fs.FS whose files are *os.File opened O_RDWR, "/")
+	kSubFS         // WithFSMount(fs.Sub(os.DirFS(sandbox), "mnt"), "/")
+	kRichFS        // WithFSMount(struct embedding os.DirFS + ReadDirFS/StatFS/ReadFileFS, "/")
 	nKinds
 )
 
@@ -77,7 +77,7 @@ func must(err error) {
 	}
 }
 
-func makeTree(base string) {
+func makeTree(base string, ext bool) {
 	mnt := filepath.Join(base, "mnt")
 	must(os.MkdirAll(filepath.Join(mnt, "dir"), 0o755))
 	must(os.WriteFile(filepath.Join(base, "outside.txt"), []byte(contOutside), 0o644))
@@ -87,14 +87,22 @@ func makeTree(base string) {
 	must(os.Symlink("file.txt", filepath.Join(mnt, "link")))
 	must(os.Symlink("../outside.txt", filepath.Join(mnt, "linkout")))
 	must(os.Symlink("../created-outside", filepath.Join(mnt, "dangle")))
+	if ext {
+		must(os.Symlink("dir", filepath.Join(mnt, "dirlink")))      // symlink -> directory inside the mount
+		must(os.Symlink("link", filepath.Join(mnt, "link2")))       // symlink -> symlink -> file
+		must(os.Symlink("dirlink", filepath.Join(mnt, "dirlink2"))) // symlink -> symlink -> directory
+		must(os.Symlink("nowhere", filepath.Join(mnt, "danglein"))) // dangling inside the mount
+		must(os.Symlink(".", filepath.Join(mnt, "dotlink")))        // symlink -> "."
+		must(os.Symlink("..", filepath.Join(mnt, "uplink")))        // symlink -> ".." (the sandbox, i.e. out of the mount)
+	}
 	for i, p := range []string{"outside.txt", "mnt/file.txt", "mnt/empty", "mnt/dir/child.txt", "mnt/dir", "mnt", ""} {
 		t := oldTime.Add(time.Duration(i) * time.Hour)
 		must(os.Chtimes(filepath.Join(base, p), t, t))
 	}
 }
 
-func makeMapFS() fstest.MapFS {
-	return fstest.MapFS{
+func makeMapFS(ext bool) fstest.MapFS {
+	m := fstest.MapFS{
 		"file.txt":      {Data: []byte(contFile), Mode: 0o644, ModTime: oldTime},
 		"empty":         {Data: []byte{}, Mode: 0o644, ModTime: oldTime.Add(time.Hour)},
 		"dir":           {Mode: fs.ModeDir | 0o755, ModTime: oldTime.Add(2 * time.Hour)},
@@ -103,14 +111,34 @@ func makeMapFS() fstest.MapFS {
 		"linkout":       {Data: []byte("../outside.txt"), Mode: fs.ModeSymlink | 0o777, ModTime: oldTime.Add(5 * time.Hour)},
 		"dangle":        {Data: []byte("../created-outside"), Mode: fs.ModeSymlink | 0o777, ModTime: oldTime.Add(6 * time.Hour)},
 	}
+	if !ext {
+		return m
+	}
+	more := fstest.MapFS{
+		"dirlink":  {Data: []byte("dir"), Mode: fs.ModeSymlink | 0o777, ModTime: oldTime.Add(7 * time.Hour)},
+		"link2":    {Data: []byte("link"), Mode: fs.ModeSymlink | 0o777, ModTime: oldTime.Add(8 * time.Hour)},
+		"dirlink2": {Data: []byte("dirlink"), Mode: fs.ModeSymlink | 0o777, ModTime: oldTime.Add(9 * time.Hour)},
+		"danglein": {Data: []byte("nowhere"), Mode: fs.ModeSymlink | 0o777, ModTime: oldTime.Add(10 * time.Hour)},
+		"dotlink":  {Data: []byte("."), Mode: fs.ModeSymlink | 0o777, ModTime: oldTime.Add(11 * time.Hour)},
+		"uplink":   {Data: []byte(".."), Mode: fs.ModeSymlink | 0o777, ModTime: oldTime.Add(12 * time.Hour)},
+	}
+	for k, v := range more {
+		m[k] = v
+	}
+	return m
 }
 
 // files that must stay readable through the mount, with their content (symlinks that leave the mount
 // are not read: whether they resolve is a sandboxing question, not this property).
-func readable(kind int) [][2]string {
+func readable(kind int, ext bool) [][2]string {
 	r := [][2]string{{"file.txt", contFile}, {"empty", ""}, {"dir/child.txt", contChild}, {"./dir/../file.txt", contFile}}
 	if kind != kMapFS {
-		r = append(r, [2]string{"link", contFile}) // MapFS (go1.23) has no symlink resolution
+		// MapFS (go1.23) has no symlink resolution
+		r = append(r, [2]string{"link", contFile})
+		if ext {
+			r = append(r, [2]string{"link2", contFile}, [2]string{"dirlink/child.txt", contChild},
+				[2]string{"dirlink2/child.txt", contChild}, [2]string{"dotlink/file.txt", contFile})
+		}
 	}
 	return r
 }
@@ -202,27 +230,31 @@ var worldSeq atomic.Int64
 
 // world = one runtime + one guest instance + one private host tree (or MapFS) for one mount kind.
 type world struct {
-	kind     int
-	prov     int    // configuration provenance (pDirect ...)
-	sibDir   string // MapFS + provenance: host directory the discarded writable siblings point at
-	cross    bool   // a writable WithDirMount(rwDir, "/rw") is preopened first (fd 3); the immutable mount is fd 4
-	rwDir    string
-	pre      uint64 // descriptor of the immutable mount's root
-	tmpRoot  string
-	base     string // sandbox directory (host kinds)
-	mapfs    fstest.MapFS
-	rt       wazero.Runtime
-	code     wazero.CompiledModule
-	mod      api.Module
-	mem      api.Memory
-	fns      map[string]api.Function
-	baseline string   // full snapshot of the initial state
-	baseFP   []byte   // fingerprint of the initial state
-	known    []string // absolute paths of the entries in baseline (host kinds)
-	fpBuf    []byte
-	sinceFull int // words since the last unconditional full snapshot
-	open     []uint32 // descriptors opened by the current word, in order
-	resets   int
+	kind      int
+	ext       bool   // extended tree: additionally the directory symlink, symlink chains, dangling-inside, "." and ".." symlinks
+	prov      int    // configuration provenance (pDirect ...)
+	sibDir    string // MapFS + provenance: host directory the discarded writable siblings point at
+	cross     bool   // a writable WithDirMount(rwDir, "/rw") is preopened first (fd 3); the immutable mount is fd 4
+	rwDir     string
+	pre       uint64 // descriptor of the immutable mount's root
+	tmpRoot   string
+	base      string // sandbox directory (host kinds)
+	mapfs     fstest.MapFS
+	rt        wazero.Runtime
+	code      wazero.CompiledModule
+	mod       api.Module
+	mem       api.Memory
+	fns       map[string]api.Function
+	baseline  string   // full snapshot of the initial state
+	baseFP    []byte   // fingerprint of the initial state
+	known     []string // absolute paths of the entries in baseline (host kinds)
+	fpBuf     []byte
+	knownDir  []int   // O_PATH descriptor of the directory containing known[i]
+	knownName []*byte // NUL-terminated last path element of known[i]
+	dirFDs    []int
+	sinceFull int      // words since the last unconditional full snapshot
+	open      []uint32 // descriptors opened by the current word, in order
+	resets    int
 }
 
 var bg = context.Background()
@@ -250,11 +282,11 @@ func provByName(n string) int {
 	return 0
 }
 
-func newWorld(kind int, tmpRoot string, cross bool, prov int) *world {
+func newWorld(kind int, tmpRoot string, cross bool, prov int, ext bool) *world {
 	if prov == pSiblingSecondPath {
 		cross = true
 	}
-	w := &world{kind: kind, tmpRoot: tmpRoot, cross: cross, pre: preFD, prov: prov}
+	w := &world{kind: kind, tmpRoot: tmpRoot, cross: cross, pre: preFD, prov: prov, ext: ext}
 	if prov != pDirect && kind == kMapFS {
 		// the writable siblings of a MapFS mount point at this (empty) host directory; it is part of the snapshot
 		w.sibDir = filepath.Join(tmpRoot, fmt.Sprintf("sib%d", worldSeq.Add(1)))
@@ -286,11 +318,11 @@ func (w *world) freshTree() {
 		os.RemoveAll(w.base)
 	}
 	if w.kind == kMapFS {
-		w.mapfs = makeMapFS()
+		w.mapfs = makeMapFS(w.ext)
 	} else {
 		w.base = filepath.Join(w.tmpRoot, fmt.Sprintf("w%d", worldSeq.Add(1)))
 		must(os.Mkdir(w.base, 0o755))
-		makeTree(w.base)
+		makeTree(w.base, w.ext)
 	}
 	if w.cross {
 		w.resetRW()
@@ -303,6 +335,7 @@ func (w *world) freshTree() {
 	w.baseline = w.snapshot()
 	if w.kind != kMapFS {
 		w.known = knownPaths(w.base, w.baseline)
+		w.indexKnown()
 	} else {
 		w.known = w.known[:0]
 		for k := range w.mapfs {
@@ -419,6 +452,7 @@ func (w *world) close() {
 		w.mod.Close(bg)
 	}
 	w.rt.Close(bg)
+	w.closeDirFDs()
 	if w.base != "" {
 		os.RemoveAll(w.base)
 	}
@@ -522,8 +556,10 @@ func bitNames(v uint16, names []string) string {
 	return o
 }
 
-func oflagNames(v uint16) string  { return bitNames(v, []string{"CREAT", "DIRECTORY", "EXCL", "TRUNC"}) }
-func fdflagNames(v uint16) string { return bitNames(v, []string{"APPEND", "DSYNC", "NONBLOCK", "RSYNC", "SYNC"}) }
+func oflagNames(v uint16) string { return bitNames(v, []string{"CREAT", "DIRECTORY", "EXCL", "TRUNC"}) }
+func fdflagNames(v uint16) string {
+	return bitNames(v, []string{"APPEND", "DSYNC", "NONBLOCK", "RSYNC", "SYNC"})
+}
 
 const (
 	rRead  = uint64(wasip1.RIGHT_FD_READ)
